@@ -10,9 +10,11 @@ structure Session.WellFormed (h : Session) : Prop where
   noSemi : ';' ∉ h.session
   timeout : ∀ t, h.timeout = some t → t < 2 ^ 32
 
-instance (h : Session) : Decidable h.WellFormed :=
+instance Session.decWellFormed (h : Session) : Decidable h.WellFormed :=
   decidable_of_iff (';' ∉ h.session ∧ ∀ t, h.timeout = some t → t < 2 ^ 32)
     ⟨fun ⟨a, b⟩ => ⟨a, b⟩, fun ⟨a, b⟩ => ⟨a, b⟩⟩
+
+example : Session.WellFormed { session := cs!"abc 12", timeout := some 60 } := by decide
 
 theorem Session.unmarshal_marshal (h : Session) (wf : h.WellFormed) :
     Session.unmarshal [h.marshal] = .ok h := by
